@@ -130,6 +130,11 @@ def check(run: Run, prog: Program, model: Model, tier: str) -> None:
                                  witness="schema.int.min(5) % 3 returns schema.int(3).min(5), which accepts nothing")
                 else:
                     run.holds("VALIDATE-FIRST", construct, site, "validation + raise on errors dominates every return", nontrivial=True)
+    # the free-form positions of a substituted value are converted by from_native: if that conversion is memoised by
+    # equality, equal values of different kinds (True / 1.0) share a slot and the result of substitute() - hence a second
+    # substitution of the same value - depends on what was converted before (idempotence clause, necessary condition)
+    from .c14 import _memo
+    _memo(run, prog, model, prog.func("d42.utils._from_native.from_native"), rule="CONVERT-PURE")
     run.analysed["substitutor_paths"] = npaths
     run.floor("ONLY-SUBSTITUTIONERROR", 70)
     run.floor("VALIDATE-FIRST", 70)
